@@ -154,6 +154,16 @@ def inverse_topology(outer, update, topology, inverse=None, multi_updates=True):
 
     inverse = inverse or {}
 
+    if isinstance(update, dict) and '*' not in topology:
+        # ports the topology does not mention are wired to a store of the
+        # same name, exactly as Store._topology_ports wires them when it
+        # creates the nodes the process reads
+        unwired = [key for key in update if key not in topology]
+        if unwired:
+            topology = dict(topology)
+            for key in unwired:
+                topology[key] = (key,)
+
     for key, path in topology.items():
         if key == '*':
             if isinstance(path, dict):
